@@ -334,6 +334,33 @@ func constify(t *rapid.T, f *File, auto AutoCfg) []cdef {
 			(*s.toks)[s.idx] = d.name
 		}
 	}
+	// some commands get richer arguments: several tokens, nested parentheses, a constant directly before '('
+	{
+		var cn []string
+		for _, d := range defs {
+			cn = append(cn, d.name)
+		}
+		enames, eblocks := EntryBlocks(f)
+		for _, n := range enames {
+			walkBlocks(eblocks[n], func(b *Block) {
+				for _, s := range b.Stmts {
+					if s.K != "cmd" || s.Cmd.Name == "end" || s.Cmd.Name == "return" || s.Cmd.Name == "goto" {
+						continue
+					}
+					if _, isAuto := auto[s.Cmd.Name]; isAuto {
+						continue
+					}
+					switch rapid.IntRange(0, 7).Draw(t, "richargs") {
+					case 0:
+						s.Cmd.Args = c10Args(t, cn)
+					case 1:
+						k := cn[rapid.IntRange(0, len(cn)-1).Draw(t, "macro")]
+						s.Cmd.Args = append(s.Cmd.Args, &Arg{Toks: []string{k, "(", "ROUTE101", ")"}}, &Arg{Toks: []string{"GRP", "(", k, ")"}})
+					}
+				}
+			})
+		}
+	}
 	// plants at undocumented sites
 	names, blocks := EntryBlocks(f)
 	for _, n := range names {
